@@ -4,6 +4,7 @@ import (
 	"bytes"
 	"encoding/json"
 	"fmt"
+	"hash/fnv"
 	"os"
 	"os/exec"
 	"path/filepath"
@@ -70,6 +71,7 @@ type c20Out struct {
 	Notes       []string          `json:"notes"`
 	Samples     []json.RawMessage `json:"samples"`
 	Outcomes    []uint64          `json:"outcomes"`
+	PkgStates   []uint64          `json:"pkg_states"`
 }
 
 type c20Viol struct {
@@ -107,26 +109,43 @@ func goCmd(dir string, args ...string) (string, error) {
 // instrumented harness and the -race harness, and computes fresh references.
 func c20Prepare(withRace bool) (*c20Build, error) {
 	root := verifRoot()
-	dir := filepath.Join(root, ".work", "c20-"+strconv.Itoa(os.Getpid()))
-	os.RemoveAll(dir)
+	// The build is cached under a key derived from the current /repo sources and the
+	// harness sources, so that the driver's replay of a violation (5 fresh processes)
+	// does not rebuild an identical overlay each time. A changed tree gets a new key.
+	key := c20TreeKey(root)
+	dir := filepath.Join(root, ".work", "c20cache-"+key)
+	b := &c20Build{dir: dir, nEntry: len(alpha.Entries)}
+	b.h = filepath.Join(dir, "c20h")
+	b.race = filepath.Join(dir, "c20race")
+	b.fresh = filepath.Join(dir, "fresh.json")
+	if _, err := os.Stat(filepath.Join(dir, "ok")); err == nil {
+		g, err := gen.Generate("/repo", filepath.Join(dir, "gen"))
+		if err == nil {
+			b.gen = g
+			if _, err := os.Stat(b.race); err == nil || !withRace {
+				return b, nil
+			}
+		}
+	}
+	// remove stale caches of other trees
+	if old, _ := filepath.Glob(filepath.Join(root, ".work", "c20cache-*")); len(old) > 0 {
+		for _, o := range old {
+			os.RemoveAll(o)
+		}
+	}
 	if err := os.MkdirAll(dir, 0o755); err != nil {
 		return nil, err
 	}
-	b := &c20Build{dir: dir, nEntry: len(alpha.Entries)}
 	g, err := gen.Generate("/repo", filepath.Join(dir, "gen"))
 	if err != nil {
 		return nil, fmt.Errorf("instrumenter: %v", err)
 	}
 	b.gen = g
-	b.h = filepath.Join(dir, "c20h")
 	if out, err := goCmd(root, "build", "-tags", "verif", "-overlay", g.Overlay, "-o", b.h, "./c20/h"); err != nil {
 		return nil, fmt.Errorf("building the instrumented harness failed:\n%s", out)
 	}
-	if withRace {
-		b.race = filepath.Join(dir, "c20race")
-		if out, err := goCmd(root, "build", "-race", "-o", b.race, "./c20/race"); err != nil {
-			return nil, fmt.Errorf("building the -race harness failed:\n%s", out)
-		}
+	if out, err := goCmd(root, "build", "-race", "-o", b.race, "./c20/race"); err != nil {
+		return nil, fmt.Errorf("building the -race harness failed:\n%s", out)
 	}
 	// fresh-process reference result of every entry
 	fresh := make([]string, b.nEntry)
@@ -154,16 +173,42 @@ func c20Prepare(withRace bool) (*c20Build, error) {
 	if ferr != nil {
 		return nil, ferr
 	}
-	b.fresh = filepath.Join(dir, "fresh.json")
 	fb, _ := json.Marshal(fresh)
 	os.WriteFile(b.fresh, fb, 0o644)
+	os.WriteFile(filepath.Join(dir, "ok"), []byte("ok"), 0o644)
 	return b, nil
 }
 
-func (b *c20Build) cleanup() { os.RemoveAll(b.dir) }
+// c20TreeKey hashes every non-test .go file under /repo and the harness sources.
+func c20TreeKey(root string) string {
+	h := fnv.New64a()
+	add := func(dir string) {
+		filepath.Walk(dir, func(p string, info os.FileInfo, err error) error {
+			if err != nil || info.IsDir() {
+				if info != nil && info.IsDir() && strings.HasPrefix(info.Name(), ".") && p != dir {
+					return filepath.SkipDir
+				}
+				return nil
+			}
+			if strings.HasSuffix(p, ".go") || strings.HasSuffix(p, "go.mod") {
+				b, _ := os.ReadFile(p)
+				h.Write([]byte(p))
+				h.Write(b)
+			}
+			return nil
+		})
+	}
+	add("/repo")
+	add(filepath.Join(root, "c20"))
+	return fmt.Sprintf("%016x", h.Sum64())
+}
+
+func (b *c20Build) cleanup() {} // the cache is removed when the tree changes (see c20Prepare)
 
 // runShards runs `h <args with %s %n>` over n shards in parallel and merges.
 func (b *c20Build) runShards(r *core.Rec, n int, mk func(shard int) []string) {
+	t0 := time.Now()
+	defer func() { r.Note(fmt.Sprintf("phase %v: %.1fs", mk(0)[:1], time.Since(t0).Seconds())) }()
 	var wg sync.WaitGroup
 	sem := make(chan struct{}, 16)
 	var mu sync.Mutex
@@ -174,7 +219,7 @@ func (b *c20Build) runShards(r *core.Rec, n int, mk func(shard int) []string) {
 			sem <- struct{}{}
 			defer func() { <-sem }()
 			cmd := exec.Command(b.h, mk(s)...)
-			cmd.Env = append(os.Environ(), "C20_FRESH="+b.fresh, "GOMAXPROCS=2", "C20_STEP_BUDGET="+strconv.FormatInt(b.stepBudget, 10))
+			cmd.Env = append(os.Environ(), "C20_FRESH="+b.fresh, "GOMAXPROCS=1", "C20_STEP_BUDGET="+strconv.FormatInt(b.stepBudget, 10))
 			var stderr bytes.Buffer
 			cmd.Stderr = &stderr
 			outb, err := cmd.Output()
@@ -229,7 +274,17 @@ func c20Fold(r *core.Rec, o *c20Out) {
 	for _, v := range o.Violations {
 		r.FailRaw("c20", v.Sig, v.Msg, v.Case)
 	}
+	c20mu.Lock()
+	for _, h := range o.PkgStates {
+		c20PkgStates[h] = true
+	}
+	c20mu.Unlock()
 }
+
+var (
+	c20mu        sync.Mutex
+	c20PkgStates = map[uint64]bool{}
+)
 
 func c20Run(c *core.Ctx) {
 	r := c.R
@@ -273,10 +328,10 @@ func c20Run(c *core.Ctx) {
 	r.Note(fmt.Sprintf("exported functions/methods not in the call alphabet (scalar-only, constructors, in-place operations, trivial accessors): %d of %d: %s", len(unc), len(g.Exported), strings.Join(unc, " ")))
 
 	variants, depth, bound := 40, 2, 1
-	b.stepBudget = 4e8
+	b.stepBudget = 1e8
 	if c.Thorough() {
 		variants, depth, bound = 125, 3, 2
-		b.stepBudget = 4e9
+		b.stepBudget = 2e9
 	}
 	// (1) purity
 	b.runShards(r, 16, func(s int) []string { return []string{"purity", strconv.Itoa(s), "16", strconv.Itoa(variants)} })
@@ -284,6 +339,11 @@ func c20Run(c *core.Ctx) {
 	// (2) histories
 	b.runShards(r, 16, func(s int) []string { return []string{"history", strconv.Itoa(depth), strconv.Itoa(s), "16"} })
 	r.Bound("histories", fmt.Sprintf("all %d^%d call sequences", b.nEntry, depth))
+	r.Count("distinct_package_states_reached", int64(len(c20PkgStates)))
+	r.State(int64(len(c20PkgStates)))
+	if len(c20PkgStates) == 1 {
+		r.Note("every call of every history maps the initial package state to itself: the reachable package-state space is a single state, so no history can influence a later call")
+	}
 	// (3) schedules
 	if syncFree {
 		b.runShards(r, 32, func(s int) []string { return []string{"sched", strconv.Itoa(bound), "2", strconv.Itoa(s), "32", "ff"} })
@@ -312,7 +372,7 @@ func c20Run(c *core.Ctx) {
 
 func c20Race(b *c20Build, r *core.Rec, rounds int) {
 	cmd := exec.Command(b.race, "16", strconv.Itoa(rounds))
-	cmd.Env = append(os.Environ(), "GORACE=halt_on_error=0 exitcode=66", "GOMAXPROCS=16")
+	cmd.Env = append(os.Environ(), "GORACE=halt_on_error=1 exitcode=66", "GOMAXPROCS=16")
 	var stdout, stderr bytes.Buffer
 	cmd.Stdout, cmd.Stderr = &stdout, &stderr
 	err := cmd.Run()
